@@ -45,7 +45,7 @@ func init() {
 		Flavour: "plain",
 		Rule: "cases = (decoder, input, pre-loaded receiver). Inputs: every length 0..140 x 12 leading bytes; all 256 prefixes x {on-curve x, off-curve x, x>=p} at lengths 33 and 65; " +
 			"x (and y) from the structured 256-bit list around p (p-40..p+40, 2^k, 2^k±1, p with one limb perturbed, 2^256-1, ...); x+p and y+p aliases of small-coordinate points; " +
-			"(x,-y), (x,y±1), (y,x), (beta x,y), near misses (stored y^2 one bit away from stored x^3+7, every bit position), valid points whose x^3 / y^2 have structured stored values, hybrid 06/07, 04||0||0, 04||0||1, all-zero, the 256 one-byte inputs, nil vs empty; every single-bit flip of two valid encodings; " +
+			"(x,-y), (x,y±1), (y,x), (beta x,y), near misses (stored y^2 one bit away from stored x^3+7, every bit position), valid points whose x^3 / y^2 have structured stored values, points of other curves (y^2 = x^3 + b for b in -23..37, y^2 = c(x^3+7) for c in -30..30: twist points, in particular c = -11 = the SSWU Z), inputs equal to the receiver's own raw projective X/Y/Z for five receiver kinds (two of them left by the library's own Double/Add), the ASCII-hex text of valid encodings given to the byte decoders, hybrid 06/07, 04||0||0, 04||0||1, all-zero, the 256 one-byte inputs, nil vs empty; every single-bit flip of two valid encodings; " +
 			"hex: lower/upper/mixed case, odd length, non-hex runes, whitespace, 0x prefix; PRNG mutations. Each byte input goes through every byte decoder, so each form-specific decoder sees the other forms. " +
 			"Oracle: the acceptance predicate of the statement computed with math/big (length, prefix, x<p, y<p, Jacobi symbol, curve equation) and the accepted point; a rejected input must return an error, not panic, and leave the receiver's value unchanged " +
 			"(receivers are pre-loaded with a λ-scaled point, a (0:Y:0) identity, or a random point). " +
